@@ -13,6 +13,10 @@ CHECKS = {
    text="Every execution of graph.InDependencyOrder is driven by a schedule controller and judged online by a trace monitor at the public visitor boundary (exactly once, after dependencies, concurrency bound, return only after every started visit returned, first error, cyclic graphs refused before any visit, project unchanged, deadlock = global quiescence with nothing parked and no return). Completion orders are enumerated depth-first for every labelled DAG on <=4 services and ordered DAGs on 5 (x direction x max concurrency x roots x injected failures); the five verif yield points additionally park in seeded/starvation schedules; shards run from the -race build. Held = no refutation on the schedules observed (counts in evidence), not a proof over all interleavings.",
    note="Quiescence is decided from goroutine wait states (runtime.Stack), confirmed twice, never from elapsed time; the monitor trusts its own recording of S/E/R events under one mutex. With internal steps parked, 'first error' is only required to be one of the injected errors.",
    technique="runtime monitoring: online trace monitor + schedule controller over verif yield points, Go race detector", design="4/C13"),
+ "C19": dict(category="exploration",
+   text="Part 1: seeded groups of 2..16 goroutines load inputs of ten families (version:, extends, include, env/label files, secrets, overrides, interpolation, profiles, build/deploy) concurrently from a barrier in a -race build under four GOMAXPROCS settings and scheduler storms; oracles are the Go race detector (reports read from its log, de-duplicated by compose-go frame pair) and equality of every concurrent result with the same load done alone. Part 2: WithServicesTransform / WithImagesResolved on 0..6 services with every callback parked on the schedule controller: all release orders (complete up to 5 services quick, 6 thorough) x injected failures, judged by a trace monitor (exactly once, results are the per-service results, first error in release order, no return with callbacks running, no deadlock). Held on the executions observed.",
+   note="The race detector only judges interleavings that occurred; each concurrent load gets its own Environment map. Quiescence for the fan-out controller is decided from goroutine wait states.",
+   technique="runtime monitoring: Go race detector over concurrent-load workloads + result-equivalence oracle + controlled fan-out trace monitor", design="4/C19"),
 }
 PLANNED = {}
 
